@@ -281,10 +281,29 @@ namespace sbepp
 // `begin <= end` is required because a view can start past the end of the
 // buffer (e.g. a member located after a `<data>` with a bogus length), in which
 // case `end - begin` is negative and its conversion to `std::size_t` is huge
-#define SBEPP_SIZE_CHECK(begin, end, offset, size) \
-    SBEPP_ASSERT(                                  \
-        (begin) && ((begin) <= (end))              \
-        && (((offset) + (size)) <= static_cast<::std::size_t>((end) - (begin))))
+// `offset + size` is not computed directly because it can overflow (e.g. for a
+// `<data>` with a bogus 64-bit length)
+#define SBEPP_SIZE_CHECK(begin, end, offset, size)         \
+    SBEPP_ASSERT(                                          \
+        (begin) && ((begin) <= (end))                      \
+        && ::sbepp::detail::is_within_size(                \
+            (offset),                                      \
+            (size),                                        \
+            static_cast<::std::size_t>((end) - (begin))))
+
+namespace sbepp
+{
+namespace detail
+{
+constexpr bool is_within_size(
+    const std::size_t offset,
+    const std::size_t size,
+    const std::size_t available) noexcept
+{
+    return (size <= available) && (offset <= (available - size));
+}
+} // namespace detail
+} // namespace sbepp
 
 //! @brief The main `sbepp` namespace
 namespace sbepp
@@ -3501,8 +3520,8 @@ public:
         SBEPP_SIZE_CHECK(
             (*this)(addressof_tag{}),
             (*this)(end_ptr_tag{}),
-            0,
-            sizeof(size_type) + count);
+            sizeof(size_type),
+            count);
         set_primitive<E>((*this)(addressof_tag{}), count);
     }
 
@@ -3624,8 +3643,8 @@ public:
         SBEPP_SIZE_CHECK(
             (*this)(detail::addressof_tag{}),
             (*this)(detail::end_ptr_tag{}),
-            0,
-            sizeof(size_type) + ilist.size());
+            sizeof(size_type),
+            ilist.size());
         assign(std::begin(ilist), std::end(ilist));
     }
 
@@ -3691,8 +3710,8 @@ private:
         SBEPP_SIZE_CHECK(
             (*this)(detail::addressof_tag{}),
             (*this)(detail::end_ptr_tag{}),
-            0,
-            sizeof(size_type) + size());
+            sizeof(size_type),
+            size());
         return data_unchecked();
     }
 
